@@ -37,6 +37,9 @@ CLAUSE_PROPERTY = {
 }
 
 
+VALUE_BASED = {"dqn", "nature_dqn", "ddqn", "ddqn_per", "q_learning", "sarsa", "double_q_learning", "monte_carlo", "dynaq"}
+
+
 def _serves(clause, pid):
     p = CLAUSE_PROPERTY.get(clause)
     return p == pid or (isinstance(p, tuple) and pid in p)
@@ -200,6 +203,8 @@ def report_property(rep, pid, tier=None, seed=None, names=None):
         for pos, clause in v["viol"]:
             if not _serves(clause, pid):
                 continue
+            if clause in ("PolicyBeforeWarmup", "ExploreOnlyInWarmup") and rname not in VALUE_BASED:
+                continue  # C13 speaks of value-based loops only; the warm-up acting of other routines is not a listed property
             ev = t["events"][pos - 1]
             rep.violation(f"{rname}:{clause}", f"{t['id']} event {pos} ({ev.get('ev')}): clause {clause} fails: { {k: ev[k] for k in ev if k not in ('ver',)} }"[:600],
                           {"kind": "sweep", "routine": rname, "scenario": t["scenario"], "position": pos, "clause": clause})
